@@ -19,7 +19,7 @@ RULE = (
 )
 ASSUMPTIONS = ["a value-preserving widening of a parameter dtype on load is accepted, a narrowing never"]
 REQUIRED = {"roundtrips_checked": {"quick": 200, "thorough": 5000}, "samples_compared": {"quick": 2000, "thorough": 50000}, "roundtrips_ge_10_samples": {"quick": 60, "thorough": 1500}, "concats_checked": {"quick": 60, "thorough": 1500}, "cli_runs": {"quick": 20, "thorough": 400}, "refusals_checked": {"quick": 150, "thorough": 3000}}
-N_CASES = {"quick": 320, "thorough": 6400}
+N_CASES = {"quick": 800, "thorough": 9600}
 
 ADV = [5e-324, -5e-324, 1e-310, 0.0, -0.0, 1.0 + 2**-52, 1.0 - 2**-53, 0.1, 1e300, -1e300, 1e-300, 16777217.0, 3.141592653589793, 2.0**-150]
 
